@@ -1,0 +1,232 @@
+//go:build verif
+
+// Contracts for govc (/verif): C03 "An output, deposit or mint slot is locked by at most one transaction".
+// Comment-only file. Uses the abstract badger model T-KV of /verif/govc/trusted/badger.spec.
+
+package storage
+
+//@ -- ═════════ storage key space (shared by all storage properties) ═════════
+//@ -- A key id (mathint) is the abstract identity of the key's byte string (builtin kvkey). Hashes/keys enter a key id
+//@ -- through THEIR id kvval(h) (the identity of the 32-byte string; injective, see common.HashOfVal), so that all
+//@ -- quantifiers of the key-space axioms range over integers. The constructors are deterministic functions of their
+//@ -- arguments, hence `kvkey(result) == <Ctor>KeyId(args)` with an uninterpreted <Ctor>KeyId.
+//@ -- keykind/keyhid/keynum are the PARSE functions of a key: which prefix it starts with, the id of the 32 bytes that
+//@ -- follow the prefix, and the numeric suffix. They are well defined because the prefixes used here start with six
+//@ -- different bytes ("UTXO" "GHOST" "DEPOSIT" "MINTUNIVERSAL" "TRANSACTION" "FINALIZATION": U G D M T F), the hash/key
+//@ -- payload has the fixed width 32, binary.PutVarint is injective and AppendUint64 is fixed width. The axioms say that
+//@ -- parsing inverts the constructors: they imply injectivity of every constructor and pairwise disjoint ranges.
+//@ -- ASSUMED (argued above, not derived from the constants by the engine).
+//@ uninterp UtxoKeyId(h mathint, i mathint) mathint
+//@ uninterp GhostKeyId(k mathint) mathint
+//@ uninterp DepositKeyId(u mathint) mathint
+//@ uninterp MintKeyId(batch mathint) mathint
+//@ uninterp TxKeyId(h mathint) mathint
+//@ uninterp FinKeyId(h mathint) mathint
+//@ uninterp keykind(k mathint) mathint
+//@ uninterp keyhid(k mathint) mathint
+//@ uninterp keynum(k mathint) mathint
+//@ axiom forall h, i mathint :: {UtxoKeyId(h, i)} keykind(UtxoKeyId(h, i)) == 1 && keyhid(UtxoKeyId(h, i)) == h && (0 <= i && i <= 1024 ==> keynum(UtxoKeyId(h, i)) == i)
+//@ axiom forall h mathint :: {GhostKeyId(h)} keykind(GhostKeyId(h)) == 2 && keyhid(GhostKeyId(h)) == h
+//@ axiom forall h mathint :: {DepositKeyId(h)} keykind(DepositKeyId(h)) == 3 && keyhid(DepositKeyId(h)) == h
+//@ axiom forall b mathint :: {MintKeyId(b)} keykind(MintKeyId(b)) == 4 && (0 <= b && b < 18446744073709551616 ==> keynum(MintKeyId(b)) == b)
+//@ axiom forall h mathint :: {TxKeyId(h)} keykind(TxKeyId(h)) == 5 && keyhid(TxKeyId(h)) == h
+//@ axiom forall h mathint :: {FinKeyId(h)} keykind(FinKeyId(h)) == 6 && keyhid(FinKeyId(h)) == h
+//@ spec UK(h crypto.Hash, i mathint) mathint = UtxoKeyId(kvval(h), i)
+//@ spec GK(k crypto.Key) mathint = GhostKeyId(kvval(k))
+//@ spec TK(h crypto.Hash) mathint = TxKeyId(kvval(h))
+//@ spec FK(h crypto.Hash) mathint = FinKeyId(kvval(h))
+//@ spec DepositSlot(d *common.DepositData) mathint = DepositKeyId(kvval(common.DepositUniq(d.Chain, d.Transaction, d.Index)))
+
+//@ assume func graphUtxoKey
+//@   panics when index > 1024
+//@   modifies nothing
+//@   ensures fresh(result) && kvkey(result) == UK(hash, index)
+//@ assume func graphGhostKey
+//@   modifies nothing
+//@   ensures fresh(result) && kvkey(result) == GK(k)
+//@ assume func graphTransactionKey
+//@   modifies nothing
+//@   ensures fresh(result) && kvkey(result) == TK(txh)
+//@ assume func graphFinalizationKey
+//@   modifies nothing
+//@   ensures fresh(result) && kvkey(result) == FK(txh)
+//@ assume func graphMintKey
+//@   modifies nothing
+//@   ensures fresh(result) && kvkey(result) == MintKeyId(batch)
+//@ assume func graphDepositKey
+//@   requires deposit != nil
+//@   modifies nothing
+//@   ensures fresh(result) && kvkey(result) == DepositSlot(deposit)
+
+//@ -- ═════════ abstractions of the stored state ═════════
+//@ -- UTXO record: common.UtxoLock(v) is the LockHash field of the record encoded by the value with id v
+//@ -- (assumed codec pair in common/zz_contracts_c03_verif.go). The zero hash means "not locked".
+//@ spec LockOf(t badger.Txn, h crypto.Hash, i mathint) crypto.Hash = common.UtxoLock(badger.kvget(t, UK(h, i)))
+//@ spec HasUtxo(t badger.Txn, h crypto.Hash, i mathint) bool = badger.kvget(t, UK(h, i)) != 0
+//@ spec Finalized(t badger.Txn, h crypto.Hash) bool = badger.kvget(t, FK(h)) != 0
+//@ spec HasTx(t badger.Txn, h crypto.Hash) bool = badger.kvget(t, TK(h)) != 0
+//@ -- the same over the committed state of the DB
+//@ spec DbLockOf(d badger.DB, h crypto.Hash, i mathint) crypto.Hash = common.UtxoLock(badger.dbget(d, UK(h, i)))
+//@ spec DbHasUtxo(d badger.DB, h crypto.Hash, i mathint) bool = badger.dbget(d, UK(h, i)) != 0
+//@ spec DbFinalized(d badger.DB, h crypto.Hash) bool = badger.dbget(d, FK(h)) != 0
+//@ spec DbHasTx(d badger.DB, h crypto.Hash) bool = badger.dbget(d, TK(h)) != 0
+//@ spec StoreOK(s *BadgerStore) bool = s != nil && s.snapshotsDB != nil && s.mutex != nil
+
+//@ -- ═════════ badger_transaction.go ═════════
+//@ func pruneTransaction
+//@   property C03
+//@   requires txn != nil
+//@   modifies *txn
+//@   ensures [finalized-refused] old(Finalized(*txn, hash)) ==> err != nil
+//@   ensures [fail-unchanged] err != nil ==> *txn == old(*txn)
+//@   ensures [pruned] err == nil ==> forall k mathint :: {badger.kvget(*txn, k)} badger.kvget(*txn, k) == (k == TK(hash) ? 0 : old(badger.kvget(*txn, k)))
+
+//@ -- ═════════ badger_utxo.go ═════════
+//@ -- lockUTXO: the lock rule. L = the lock currently recorded in the slot (zero hash = free).
+//@ func lockUTXO
+//@   property C03
+//@   requires txn != nil
+//@   requires [index] index <= 1024 -- graphUtxoKey panics above 1024; callers: inputs of a decoded transaction (decoder limit)
+//@   modifies *txn
+//@   ensures [exists] err == nil ==> old(HasUtxo(*txn, hash, index)) && HasUtxo(*txn, hash, index)
+//@   ensures [locked] err == nil ==> LockOf(*txn, hash, index) == tx
+//@   ensures [free-or-same] let L == old(LockOf(*txn, hash, index)) in err == nil && (!L.HasValue() || L == tx) ==>
+//@       forall k mathint :: {badger.kvget(*txn, k)} k != UK(hash, index) ==> badger.kvget(*txn, k) == old(badger.kvget(*txn, k))
+//@   ensures [takeover] let L == old(LockOf(*txn, hash, index)) in err == nil && L.HasValue() && L != tx ==>
+//@       fork && !old(Finalized(*txn, L)) && !HasTx(*txn, L) &&
+//@       forall k mathint :: {badger.kvget(*txn, k)} k != UK(hash, index) && k != TK(L) ==> badger.kvget(*txn, k) == old(badger.kvget(*txn, k))
+//@   ensures [refused] let L == old(LockOf(*txn, hash, index)) in L.HasValue() && L != tx && (!fork || old(Finalized(*txn, L))) ==> err != nil && *txn == old(*txn)
+//@   ensures [absent] !old(HasUtxo(*txn, hash, index)) ==> err != nil && *txn == old(*txn)
+//@   ensures [fail-frame] let L == old(LockOf(*txn, hash, index)) in err != nil ==>
+//@       (forall k mathint :: {badger.kvget(*txn, k)} k != TK(L) ==> badger.kvget(*txn, k) == old(badger.kvget(*txn, k))) &&
+//@       (badger.kvget(*txn, TK(L)) == old(badger.kvget(*txn, TK(L))) || (fork && L.HasValue() && L != tx && !old(Finalized(*txn, L)) && !HasTx(*txn, L)))
+
+//@ -- InputsOK: graphUtxoKey panics for index > 1024; the inputs of a decoded transaction satisfy it (decoder limit) and are non-nil.
+//@ spec InputsOK(inputs []*common.Input) bool = forall i int :: 0 <= i && i < len(inputs) ==> inputs[i] != nil && inputs[i].Index <= 1024
+//@ -- KvStep(a, b, tx, fork): how the view b may differ from the view a after locking some UTXO slots for tx:
+//@ --  * only UTXO slots and TRANSACTION bodies change; bodies are only deleted, never those of finalized transactions, and only when fork
+//@ --  * a UTXO slot that changed is now locked by tx; if it was locked by another transaction L then fork, L was not
+//@ --    finalized and L's body is gone ("displaces a pending one => removes its stored body", "never displaces a finalized one")
+//@ spec KvStep(a badger.Txn, b badger.Txn, tx crypto.Hash, fork bool) bool =
+//@     (forall k mathint :: {badger.kvget(b, k)} keykind(k) != 1 && keykind(k) != 5 ==> badger.kvget(b, k) == badger.kvget(a, k)) &&
+//@     (forall k mathint :: {badger.kvget(b, k)} keykind(k) == 5 ==> badger.kvget(b, k) == badger.kvget(a, k) || (fork && badger.kvget(b, k) == 0 && badger.kvget(a, FinKeyId(keyhid(k))) == 0)) &&
+//@     (forall k mathint :: {badger.kvget(b, k)} keykind(k) == 1 && badger.kvget(b, k) != badger.kvget(a, k) ==>
+//@         badger.kvget(a, k) != 0 && badger.kvget(b, k) != 0 && common.UtxoLock(badger.kvget(b, k)) == tx &&
+//@         (let L == common.UtxoLock(badger.kvget(a, k)) in L.HasValue() && L != tx ==> fork && badger.kvget(a, FK(L)) == 0 && badger.kvget(b, TK(L)) == 0))
+
+//@ func (s *BadgerStore) LockUTXOs$1
+//@   property C03
+//@   requires txn != nil && iscell(txn) && InputsOK(inputs)
+//@   modifies *txn
+//@   ensures [all-locked] err == nil ==> forall i int :: 0 <= i && i < len(inputs) ==> HasUtxo(*txn, inputs[i].Hash, inputs[i].Index) && LockOf(*txn, inputs[i].Hash, inputs[i].Index) == tx
+//@   ensures [step] KvStep(old(*txn), *txn, tx, fork)
+//@   loop 0 invariant [locked] forall j int :: 0 <= j && j <= rangeindex ==> HasUtxo(*txn, inputs[j].Hash, inputs[j].Index) && LockOf(*txn, inputs[j].Hash, inputs[j].Index) == tx
+//@   loop 0 invariant [step] KvStep(old(*txn), *txn, tx, fork)
+
+//@ -- ═════════ badger_deposit.go ═════════
+//@ -- D = id of the value currently stored in the deposit slot (0 = free); a lock is the raw 32 bytes of the holder's hash.
+//@ func (s *BadgerStore) LockDepositInput$1
+//@   property C03
+//@   requires txn != nil && iscell(txn) && deposit != nil
+//@   modifies *txn
+//@   ensures [locked] err == nil ==> badger.kvget(*txn, DepositSlot(deposit)) == kvval(tx)
+//@   ensures [len32] err == nil ==> badger.vallen(badger.kvget(*txn, DepositSlot(deposit))) == 32 -- every successful lock leaves a 32-byte entry: establishes the `vallen(D) == 32` hypothesis of [refused]/[takeover] inductively
+//@   ensures [same] old(badger.kvget(*txn, DepositSlot(deposit))) == kvval(tx) ==> *txn == old(*txn)
+//@   ensures [free] err == nil && old(badger.kvget(*txn, DepositSlot(deposit))) == 0 ==>
+//@       forall k mathint :: {badger.kvget(*txn, k)} k != DepositSlot(deposit) ==> badger.kvget(*txn, k) == old(badger.kvget(*txn, k))
+//@   ensures [refused] let D == old(badger.kvget(*txn, DepositSlot(deposit))) in D != 0 && D != kvval(tx) && (!fork || (badger.vallen(D) == 32 && old(Finalized(*txn, common.HashOfVal(D))))) ==> err != nil && *txn == old(*txn)
+//@   ensures [takeover] let D == old(badger.kvget(*txn, DepositSlot(deposit))) in err == nil && D != 0 && D != kvval(tx) ==> fork &&
+//@       (badger.vallen(D) == 32 ==> !old(Finalized(*txn, common.HashOfVal(D))) && !HasTx(*txn, common.HashOfVal(D)) &&
+//@          forall k mathint :: {badger.kvget(*txn, k)} k != DepositSlot(deposit) && k != TK(common.HashOfVal(D)) ==> badger.kvget(*txn, k) == old(badger.kvget(*txn, k)))
+//@   ensures [frame] forall k mathint :: {badger.kvget(*txn, k)} k != DepositSlot(deposit) && keykind(k) != 5 ==> badger.kvget(*txn, k) == old(badger.kvget(*txn, k))
+//@   ensures [tx-only-deleted] forall k mathint :: {badger.kvget(*txn, k)} keykind(k) == 5 ==> badger.kvget(*txn, k) == old(badger.kvget(*txn, k)) || badger.kvget(*txn, k) == 0
+
+//@ -- ═════════ badger_mint.go ═════════
+//@ -- V = id of the value stored in the batch slot (0 = free). "same" = the slot already holds (tx, amount).
+//@ spec MintSame(v mathint, tx crypto.Hash, amount mathint) bool = v != 0 && common.MintTx(v) == tx && common.MintAmount(v) == amount
+//@ func (s *BadgerStore) LockMintInput$1
+//@   property C03
+//@   requires txn != nil && iscell(txn) && mint != nil
+//@   requires [group] mint.Group == common.mintGroupUniversal -- MintDistribution.Marshal panics otherwise; established by validateMint
+//@   modifies *txn
+//@   ensures [locked] err == nil ==> MintSame(badger.kvget(*txn, MintKeyId(mint.Batch)), tx, val(mint.Amount))
+//@   ensures [same] MintSame(old(badger.kvget(*txn, MintKeyId(mint.Batch))), tx, val(mint.Amount)) ==> *txn == old(*txn)
+//@   ensures [free] err == nil && old(badger.kvget(*txn, MintKeyId(mint.Batch))) == 0 ==>
+//@       forall k mathint :: {badger.kvget(*txn, k)} k != MintKeyId(mint.Batch) ==> badger.kvget(*txn, k) == old(badger.kvget(*txn, k))
+//@   ensures [refused] let V == old(badger.kvget(*txn, MintKeyId(mint.Batch))) in V != 0 && !MintSame(V, tx, val(mint.Amount)) && (!fork || old(Finalized(*txn, common.MintTx(V)))) ==> err != nil && *txn == old(*txn)
+//@   ensures [takeover] let V == old(badger.kvget(*txn, MintKeyId(mint.Batch))) in err == nil && V != 0 && !MintSame(V, tx, val(mint.Amount)) ==> fork &&
+//@       !old(Finalized(*txn, common.MintTx(V))) && !HasTx(*txn, common.MintTx(V)) &&
+//@       forall k mathint :: {badger.kvget(*txn, k)} k != MintKeyId(mint.Batch) && k != TK(common.MintTx(V)) ==> badger.kvget(*txn, k) == old(badger.kvget(*txn, k))
+//@   ensures [frame] forall k mathint :: {badger.kvget(*txn, k)} k != MintKeyId(mint.Batch) && keykind(k) != 5 ==> badger.kvget(*txn, k) == old(badger.kvget(*txn, k))
+//@   ensures [tx-only-deleted] forall k mathint :: {badger.kvget(*txn, k)} keykind(k) == 5 ==> badger.kvget(*txn, k) == old(badger.kvget(*txn, k)) || badger.kvget(*txn, k) == 0
+
+//@ -- ═════════ the public lock methods: one badger Update each, all-or-nothing on the committed state ═════════
+//@ func (s *BadgerStore) LockDepositInput
+//@   property C03
+//@   lockset mutex -- syntactic: s.mutex.Lock() + deferred Unlock around the single badger Update (not a proof about schedules)
+//@   requires StoreOK(s) && deposit != nil
+//@   modifies *s.snapshotsDB
+//@   ensures [atomic] err != nil ==> *s.snapshotsDB == old(*s.snapshotsDB)
+//@   ensures [locked] err == nil ==> badger.dbget(*s.snapshotsDB, DepositSlot(deposit)) == kvval(tx)
+//@   ensures [len32] err == nil ==> badger.vallen(badger.dbget(*s.snapshotsDB, DepositSlot(deposit))) == 32
+//@   ensures [same] old(badger.dbget(*s.snapshotsDB, DepositSlot(deposit))) == kvval(tx) ==>
+//@       forall k mathint :: {badger.dbget(*s.snapshotsDB, k)} badger.dbget(*s.snapshotsDB, k) == old(badger.dbget(*s.snapshotsDB, k))
+//@   ensures [refused] let D == old(badger.dbget(*s.snapshotsDB, DepositSlot(deposit))) in D != 0 && D != kvval(tx) && (!fork || (badger.vallen(D) == 32 && old(DbFinalized(*s.snapshotsDB, common.HashOfVal(D))))) ==> err != nil
+//@   ensures [takeover] let D == old(badger.dbget(*s.snapshotsDB, DepositSlot(deposit))) in err == nil && D != 0 && D != kvval(tx) ==> fork &&
+//@       (badger.vallen(D) == 32 ==> !old(DbFinalized(*s.snapshotsDB, common.HashOfVal(D))) && !DbHasTx(*s.snapshotsDB, common.HashOfVal(D)))
+//@   ensures [frame] forall k mathint :: {badger.dbget(*s.snapshotsDB, k)} k != DepositSlot(deposit) && keykind(k) != 5 ==> badger.dbget(*s.snapshotsDB, k) == old(badger.dbget(*s.snapshotsDB, k))
+//@   ensures [tx-only-deleted] forall k mathint :: {badger.dbget(*s.snapshotsDB, k)} keykind(k) == 5 ==> badger.dbget(*s.snapshotsDB, k) == old(badger.dbget(*s.snapshotsDB, k)) || badger.dbget(*s.snapshotsDB, k) == 0
+
+//@ func (s *BadgerStore) LockMintInput
+//@   property C03
+//@   lockset mutex -- syntactic: s.mutex.Lock() + deferred Unlock around the single badger Update (not a proof about schedules)
+//@   requires StoreOK(s) && mint != nil
+//@   requires [group] mint.Group == common.mintGroupUniversal -- established by validateMint (Validate precedes LockInputs); Marshal panics otherwise
+//@   modifies *s.snapshotsDB
+//@   ensures [atomic] err != nil ==> *s.snapshotsDB == old(*s.snapshotsDB)
+//@   ensures [locked] err == nil ==> MintSame(badger.dbget(*s.snapshotsDB, MintKeyId(mint.Batch)), tx, val(mint.Amount))
+//@   ensures [same] MintSame(old(badger.dbget(*s.snapshotsDB, MintKeyId(mint.Batch))), tx, val(mint.Amount)) ==>
+//@       forall k mathint :: {badger.dbget(*s.snapshotsDB, k)} badger.dbget(*s.snapshotsDB, k) == old(badger.dbget(*s.snapshotsDB, k))
+//@   ensures [refused] let V == old(badger.dbget(*s.snapshotsDB, MintKeyId(mint.Batch))) in V != 0 && !MintSame(V, tx, val(mint.Amount)) && (!fork || old(DbFinalized(*s.snapshotsDB, common.MintTx(V)))) ==> err != nil
+//@   ensures [takeover] let V == old(badger.dbget(*s.snapshotsDB, MintKeyId(mint.Batch))) in err == nil && V != 0 && !MintSame(V, tx, val(mint.Amount)) ==> fork &&
+//@       !old(DbFinalized(*s.snapshotsDB, common.MintTx(V))) && !DbHasTx(*s.snapshotsDB, common.MintTx(V))
+//@   ensures [frame] forall k mathint :: {badger.dbget(*s.snapshotsDB, k)} k != MintKeyId(mint.Batch) && keykind(k) != 5 ==> badger.dbget(*s.snapshotsDB, k) == old(badger.dbget(*s.snapshotsDB, k))
+//@   ensures [tx-only-deleted] forall k mathint :: {badger.dbget(*s.snapshotsDB, k)} keykind(k) == 5 ==> badger.dbget(*s.snapshotsDB, k) == old(badger.dbget(*s.snapshotsDB, k)) || badger.dbget(*s.snapshotsDB, k) == 0
+
+//@ -- DbStep: KvStep over the committed state.
+//@ spec DbStep(a badger.DB, b badger.DB, tx crypto.Hash, fork bool) bool =
+//@     (forall k mathint :: {badger.dbget(b, k)} keykind(k) != 1 && keykind(k) != 5 ==> badger.dbget(b, k) == badger.dbget(a, k)) &&
+//@     (forall k mathint :: {badger.dbget(b, k)} keykind(k) == 5 ==> badger.dbget(b, k) == badger.dbget(a, k) || (fork && badger.dbget(b, k) == 0 && badger.dbget(a, FinKeyId(keyhid(k))) == 0)) &&
+//@     (forall k mathint :: {badger.dbget(b, k)} keykind(k) == 1 && badger.dbget(b, k) != badger.dbget(a, k) ==>
+//@         badger.dbget(a, k) != 0 && badger.dbget(b, k) != 0 && common.UtxoLock(badger.dbget(b, k)) == tx &&
+//@         (let L == common.UtxoLock(badger.dbget(a, k)) in L.HasValue() && L != tx ==> fork && badger.dbget(a, FK(L)) == 0 && badger.dbget(b, TK(L)) == 0))
+
+//@ -- LockUTXOs: all inputs or nothing. With [step]: every slot that changed was free, held by tx itself, or (fork only) held
+//@ -- by an unfinalized transaction whose body is removed in the same commit; a slot held by another transaction makes an
+//@ -- ordinary (fork == false) call fail, because success would have changed it, which DbStep forbids without fork.
+//@ func (s *BadgerStore) LockUTXOs
+//@   property C03
+//@   lockset mutex -- syntactic: s.mutex.Lock() + deferred Unlock around the single badger Update (not a proof about schedules)
+//@   requires StoreOK(s) && InputsOK(inputs)
+//@   modifies *s.snapshotsDB
+//@   ensures [atomic] err != nil ==> *s.snapshotsDB == old(*s.snapshotsDB)
+//@   ensures [all-locked] err == nil ==> forall i int :: 0 <= i && i < len(inputs) ==> DbHasUtxo(*s.snapshotsDB, inputs[i].Hash, inputs[i].Index) && DbLockOf(*s.snapshotsDB, inputs[i].Hash, inputs[i].Index) == tx
+//@   ensures [step] DbStep(old(*s.snapshotsDB), *s.snapshotsDB, tx, fork)
+//@   ensures [refused] (exists i int :: 0 <= i && i < len(inputs) && (let L == old(DbLockOf(*s.snapshotsDB, inputs[i].Hash, inputs[i].Index)) in L.HasValue() && L != tx && (!fork || old(DbFinalized(*s.snapshotsDB, L))))) ==> err != nil
+
+//@ -- ═════════ observation points ═════════
+//@ func (s *BadgerStore) readUTXOLock
+//@   property C03
+//@   requires txn != nil
+//@   requires [index] index <= 1024
+//@   modifies nothing
+//@   ensures [absent] err == nil && result0 == nil ==> !HasUtxo(*txn, hash, index)
+//@   ensures [lock] err == nil && result0 != nil ==> HasUtxo(*txn, hash, index) && result0.LockHash == LockOf(*txn, hash, index)
+
+//@ func (s *BadgerStore) ReadUTXOLock
+//@   property C03
+//@   requires s != nil && s.snapshotsDB != nil && s.mutex != nil
+//@   requires [index] index <= 1024
+//@   modifies nothing
+//@   ensures [absent] err == nil && result0 == nil ==> !DbHasUtxo(*s.snapshotsDB, hash, index)
+//@   ensures [lock] err == nil && result0 != nil ==> DbHasUtxo(*s.snapshotsDB, hash, index) && result0.LockHash == DbLockOf(*s.snapshotsDB, hash, index)
